@@ -587,6 +587,42 @@ pub fn run(tier: Tier) -> Run {
                 }
             })
             .collect();
+        // the typed-literal contexts that leave a function open, completed into loadable modules (the target, a terminator
+        // if it is none, OpFunctionEnd): types and values declared inside earlier functions, chains, re-declarations ..
+        {
+            let ctxs = crate::checks::c03::context_variants();
+            let res: Vec<Option<Viol>> = ctxs
+                .par_iter()
+                .map(|(pre, sh)| {
+                    let opened = pre.iter().filter(|i| i.name() == "Function").count();
+                    let closed = pre.iter().filter(|i| i.name() == "FunctionEnd").count();
+                    if opened == closed {
+                        return None;
+                    }
+                    let mut w = crate::model::header(0x0001_0300, 0, 0xFFFF_FFFF);
+                    for i in pre {
+                        w.extend(crate::model::enc(i));
+                    }
+                    if !pre.last().map_or(false, |i| i.name() == "Label" || !matches!(i.name().as_str(), "Function" | "FunctionParameter")) {
+                        w.extend(crate::model::enc(&crate::model::Inst::new("Label", None, Some(0x7FFF_0001), vec![])));
+                    }
+                    w.extend(crate::model::enc(&sh.inst));
+                    if sh.inst.name() != "Switch" {
+                        w.extend(crate::model::enc(&crate::model::Inst::new("Return", None, None, vec![])));
+                    }
+                    w.extend(crate::model::enc(&crate::model::Inst::new("FunctionEnd", None, None, vec![])));
+                    raw_check(&sh.id, "closed-context", &crate::model::words_to_bytes(&w)).0
+                })
+                .collect();
+            let mut n = 0u64;
+            for v in res {
+                n += 1;
+                if let Some(v) = v {
+                    run.add(v);
+                }
+            }
+            run.outcome("closed_contexts", n);
+        }
         run.outcome("dense_large_modules", ks.len() as u64);
         // many functions: N = 2..=40, 64, 100, 300 functions with distinct ids, all with a body except ONE body-less
         // declaration at the front / in the middle / at the end (and none): every function comes back where it was
